@@ -90,7 +90,7 @@ Proof. exact (gc_keeps_unexpired t e). Qed.
 (* The log changes only by a log write (visible as OLog in the same step), GC or a gossip merge. *)
 Theorem c04_log_changes_only_by_log_gc_merge cfg s t e s' o :
   step cfg s t e = Some (s', o) -> s_nflog s' <> s_nflog s ->
-  (exists i F R, In (OLog i F R t) o) \/ e = ENflogGC \/ (exists i en, e = ENflogMerge i en).
+  (exists i F R, In (OLog i F R t) o) \/ e = ENflogGC \/ (exists i en, e = ENflogMerge i en \/ e = ENflogLoad i en).
 Proof. exact (nflog_changes_only_by_log cfg s t e s' o). Qed.
 
 (* ---- non-vacuity: a concrete accepted run with a first notification, a suppressed repeat and a due repeat ---- *)
